@@ -90,7 +90,7 @@ def small_workloads(prop):
     return ws
 
 
-def run(ctx, prop, gen_kwargs, rule, n_quick, n_thorough, focus=None):
+def run(ctx, prop, gen_kwargs, rule, n_quick, n_thorough, focus=None, nontrivial_fn=None):
     """focus: the set of properties whose monitor failures this check reports"""
     focus = focus or {prop}
     ctx.rule = rule
@@ -110,6 +110,8 @@ def run(ctx, prop, gen_kwargs, rule, n_quick, n_thorough, focus=None):
     for seed, spec, ev, obs, fails, q in results:
         reordered = sum(1 for e in ev if e[0] == "deliver" and e[1] > 0)
         nontrivial = any(js["deps"] for js in spec["jobs"]) and reordered >= 2
+        if nontrivial_fn is not None:
+            nontrivial = nontrivial_fn(spec, ev)
         ctx.case({"seed": seed, "workload": spec, "events": ev[:60]}, nontrivial)
         ctx.count("jobs", len(spec["jobs"]))
         ctx.count("tokens", len(spec["tokens"]))
@@ -192,7 +194,7 @@ def run_witness(ctx, prop, finding, focus=None):
     from ..impl import schedeng
     focus = focus or {prop}
     w = finding.get("witness")
-    if not w or "events" not in w:
+    if not w or "events" not in w or "workload" not in w:
         return
     ev, obs, tr, q = schedeng.run_replay_complete(w["workload"], w["events"])
     for p, key, what in schedlib.monitors(w["workload"], ev, obs, tr, q):
